@@ -1029,7 +1029,7 @@ fn main() {
     let mut ctx = Ctx {
         hsize,
         halign,
-        pattern: 1,
+        pattern: (lp::parse_seed(&args) as u8) | 1, // the byte patterns written into the payloads derive from --seed
         lines: 0,
         bad_lines: 0,
         types: 0,
